@@ -92,6 +92,16 @@ def shards(tier, seed):
     return out
 
 
+def CORESIDENT(shards):
+    """Pairs of small shards (table size 2) of different protocol versions for one process."""
+    byv = {}
+    for i, d in enumerate(shards):
+        if d["n"] == 2:
+            byv.setdefault(d["version"], i)
+    vs = sorted(byv)
+    return [[byv[vs[-1]], byv[vs[0]]], [byv[vs[0]], byv[vs[-1]]]] if len(vs) >= 2 else []
+
+
 def is_ok(st):
     import bellows.types as t
 
